@@ -326,12 +326,20 @@ def snapshot(mol):
     return nodes, sorted(tuple(sorted(e)) for e in mol.edges)
 
 
-def run_annotate(system, modifications, mutations):
+def run_annotate(system, modifications, mutations, warm_system=None):
     """Returns (NameError or None, messages of the records of level >= WARNING)."""
+    processor = AnnotateMutMod(modifications=[(s['text'], s['target']) for s in modifications],
+                               mutations=[(s['text'], s['target']) for s in mutations])
+    if warm_system is not None:
+        # the processor object has served another system before; what it reports for this one must not depend on that
+        with capture_logs():
+            try:
+                processor.run_system(warm_system)
+            except NameError:
+                pass
     with capture_logs() as logs:
         try:
-            AnnotateMutMod(modifications=[(s['text'], s['target']) for s in modifications],
-                           mutations=[(s['text'], s['target']) for s in mutations]).run_system(system)
+            processor.run_system(system)
             exc = None
         except NameError as err:
             exc = err
@@ -433,7 +441,12 @@ def _run_annotate(case):
         layouts.append(per_res)
     system.molecules = mols
     before = [snapshot(mol) for mol in mols]
-    exc, messages = run_annotate(system, case['modifications'], case['mutations'])
+    warm_system = None
+    if len(mols) % 2 == 0:
+        # the molecules in reverse order, without the last one: requests may match there that match nothing here, and the reverse
+        warm_system = System(force_field=ff)
+        warm_system.molecules = [build_molecule(md, ff)[0] for md in reversed(case['mols'][:-1])]
+    exc, messages = run_annotate(system, case['modifications'], case['mutations'], warm_system)
     if len(system.molecules) != len(mols):
         raise Violation('molecules-changed', 'number of molecules changed from %d to %d' % (len(mols), len(system.molecules)))
     after = [snapshot(mol) for mol in system.molecules]
